@@ -134,7 +134,12 @@ class Driver:
         ntxs = op.get('ntx', [2])
         include_mp = op.get('confirm', 1.0)
         for i in range(op.get('n', 1)):
-            include = [t for t in w.daemon.mempool.values() if rng.random() < include_mp]
+            if include_mp == 'parents':
+                # only transactions all of whose inputs are confirmed: children stay behind in the mempool
+                include = [t for t in w.daemon.mempool.values()
+                           if not any(a in w.daemon.mempool for a, _ in t.prevouts())]
+            else:
+                include = [t for t in w.daemon.mempool.values() if rng.random() < include_mp]
             tip = w.gen.make_block(tip, rng, ntxs[i % len(ntxs)], include=include,
                                    big_at=op.get('big_at'), big=op.get('big', 0))
         w.daemon.set_tip(tip)
@@ -247,11 +252,43 @@ class Driver:
         self.last_sync_limit = (limit or self.SYNC_LIMIT) + (w.daemon.height + 1) * 8 * lat
         return self.last_sync_limit
 
+    def disarm(self):
+        """No daemon-side trigger or slow reply survives into the fault-free tail."""
+        self.w.dnet.rpc_triggers.clear()
+        self.w.dnet.slow.clear()
+
+    def op_on_rpc(self, op):
+        """Fault placement inside an operation: right after the daemon has answered the (skip+1)-th next
+        request of `method`, apply the nested daemon-side changes (`then`: mine / fork / mp_add / mp_evict /
+        slow).  Nothing happens if no such request arrives before the next quiescence."""
+        def fn():
+            self.probe('on_rpc.fired.' + op['method'])
+            for sub in op['then']:
+                self.nested(sub)
+        self.w.dnet.rpc_triggers.append(dict(method=op['method'], skip=op.get('skip', 0), fn=fn))
+
+    def nested(self, sub):
+        kind = sub['op']
+        if getattr(self.w.daemon, 'frozen', False):
+            return
+        if kind == 'mine':
+            self.mine_now(sub)
+        elif kind == 'fork':
+            self.fork_now(sub)
+        elif kind == 'slow':
+            self.w.dnet.slow.append([sub['method'], sub['delay']])
+        elif kind in ('mp_add', 'mp_evict'):
+            getattr(self, 'op_' + kind)({k: v for k, v in sub.items() if k != 'at'})
+
+    def op_slow(self, op):
+        self.w.dnet.slow.append([op['method'], op['delay']])
+
     def quiesce(self, limit=None):
         """Fault-free tail: freeze the daemon, stop faults, let the server catch up.  Restarts a
         dead server like a supervisor would.  Returns True when caught up within the window."""
         w = self.w
         limit = self.sync_limit(limit)
+        self.disarm()
         w.faults.enabled = False
         w.faults.script = []
         w.sim.stall_p = 0.0          # a stalled disk is a fault too
